@@ -21,6 +21,7 @@ pub enum Profile {
     Conserve, // C03: several non-registered buyers in the window, no manual SFL
     Reject,   // C04: borderline invalid rows
     Split,    // C15: histories with splits of terminating ratios
+    Opening,  // C16: always an opening position (zero / fractional shares, zero cost), other affiliates, global splits
 }
 
 impl Profile {
@@ -31,6 +32,7 @@ impl Profile {
             "conserve" => Profile::Conserve,
             "reject" => Profile::Reject,
             "split" => Profile::Split,
+            "opening" => Profile::Opening,
             _ => return None,
         })
     }
@@ -67,7 +69,13 @@ pub fn gen_case(seed: u64, k: u64, profile: Profile) -> Case {
     let mut afs: Vec<&str> = af_pool.clone();
     afs.shuffle(&mut rng);
     afs.truncate(naf);
-    if !afs.iter().any(|a| !affiliate_id(a).1) {
+    if profile == Profile::Opening && rng.gen_bool(0.4) {
+        // the default affiliate holds the opening shares but has no rows of its own
+        afs.retain(|a| affiliate_id(a).0 != "default");
+        if afs.is_empty() {
+            afs.push("Spouse");
+        }
+    } else if !afs.iter().any(|a| !affiliate_id(a).1) {
         afs.push("");
     }
 
@@ -75,9 +83,9 @@ pub fn gen_case(seed: u64, k: u64, profile: Profile) -> Case {
     let mut opening = BTreeMap::new();
     for sec in &secs {
         let mut hold = Hold { sh: BTreeMap::new() };
-        if profile != Profile::Conserve && rng.gen_bool(0.2) {
-            let n = pick_shares(&mut rng, true);
-            let c = dec(rng.gen_range(0..500_000), 2);
+        if profile != Profile::Conserve && (profile == Profile::Opening || rng.gen_bool(0.2)) {
+            let n = if profile == Profile::Opening && rng.gen_bool(0.1) { Decimal::ZERO } else { pick_shares(&mut rng, true) };
+            let c = if rng.gen_bool(0.15) || n.is_zero() { Decimal::ZERO } else { dec(rng.gen_range(0..500_000), 2) };
             opening.insert(sec.to_string(), (num(n), num(c)));
             hold.sh.insert("default".into(), n);
         }
@@ -234,6 +242,7 @@ pub fn profile_name(p: Profile) -> &'static str {
         Profile::Conserve => "conserve",
         Profile::Reject => "reject",
         Profile::Split => "split",
+        Profile::Opening => "opening",
     }
 }
 
